@@ -5,7 +5,7 @@
 set -u
 PATCH="$(readlink -f "$1")"; shift
 PROPS="${*:-C01 C02 C03 C04 C05 C06 C07 C08 C09 C10 C11 C12 C13 C14 C15}"
-LAB=/tmp/mutlab
+LAB="${MUTLAB:-/tmp/mutlab}"
 if [ ! -d $LAB/repo ]; then
   mkdir -p $LAB && git -C /repo worktree add -q --detach $LAB/repo HEAD && cp /repo/Cargo.lock $LAB/repo/
 fi
